@@ -109,6 +109,15 @@ def cons_text(c):
         return l if (lo is not None and lo == hi) else f"{l}..{h}"
     return "(" + " | ".join(one(lo, hi) for lo, hi in ranges(c)) + ")"
 
+def ch_text(k, ch):
+    """one character of a permitted alphabet: a cstring where that is possible, else X.680 Tuple {column, row} (IA5-based
+    kinds, code = 16 column + row) / Quadruple {group, plane, row, cell} (BMPString, UniversalString, UTF8String)"""
+    c = ord(ch)
+    if 0x20 <= c <= 0x7e and ch != '"': return '"%s"' % ch
+    if k in ("BMPString", "UniversalString", "UTF8String"): return "{%d,%d,%d,%d}" % (c >> 24, (c >> 16) & 0xff, (c >> 8) & 0xff, c & 0xff)
+    assert c < 128
+    return "{%d,%d}" % (c >> 4, c & 15)
+
 def ttext(t, ind=1):
     k = t["k"]
     pre = genmod.tag_text(t.get("tag"))
@@ -119,8 +128,7 @@ def ttext(t, ind=1):
     if k in LK:
         cs = []
         if t.get("size"): cs.append("SIZE" + cons_text(t["size"]))
-        ch = lambda x: '"%s"' % x if ord(x) < 0x7f else "{0,0,%d,%d}" % (ord(x) >> 8, ord(x) & 0xff)     # (asn1c reads a cstring octet by octet)
-        if t.get("alpha"): cs.append("FROM(" + " | ".join(ch(a) if len(a) == 1 else ch(a[0]) + ".." + ch(a[1]) for a in t["alpha"]) + ")")
+        if t.get("alpha"): cs.append("FROM(" + " | ".join(ch_text(k, a) if len(a) == 1 else ch_text(k, a[0]) + ".." + ch_text(k, a[1]) for a in t["alpha"]) + ")")
         return pre + k + ((" (" + " ^ ".join(cs) + ")") if cs else "")
     if k in ("SEQUENCE", "SET", "CHOICE"):
         items = []
@@ -555,6 +563,118 @@ VACUOUS_TYPES = [    # former F48 region (a checker with nothing applicable call
                               M("l", T("REF", name="SL4")), M("z", T("INTEGER", cons=C(0, 7)))])),
 ]
 
+# ---------------------------------------------------------------------------------------------
+# permitted alphabets made of disjoint pieces whose smallest / largest character codes sit on and around the multiples of 16
+# (asn1c emits permitted_alphabet_table_N[] in rows of 16 cells up to the largest permitted code)
+ALPHA_EDGES = [15, 16, 17, 31, 32, 47, 48, 63, 64, 79, 80, 95, 96, 111, 112, 126, 127]
+# kinds whose edge characters need the Tuple / Quadruple notation come last and carry no SIZE: asn1c's lexer rejects every number
+# that follows a Tuple / Quadruple in the same file (stale errno == ERANGE after _lex_atoi("1,0}"); a parser defect, not C08's)
+ALPHA_KINDS = ["VisibleString", "PrintableString", "NumericString", "IA5String", "UTF8String", "BMPString", "UniversalString"]
+ALPHA_SIZED = ("VisibleString", "PrintableString", "NumericString")
+
+def kind_codes(k):
+    """character codes of the kind below 256 (X.680 41)"""
+    if k in ("UTF8String", "BMPString", "UniversalString"): return list(range(256))
+    return [c for c in range(128) if builtin_ok(k, c)]
+
+def piece_codes(k):
+    """codes used for the non-edge pieces: without the quotation mark and the apostrophe (asn1c's lexer trips over a cstring "'")"""
+    return [c for c in kind_codes(k) if c not in (0x22, 0x27)]
+
+def alphabet_boundary_module(rng, quick):
+    """-> (module, [(type, python value, case kind)]): top-level types and members (SEQUENCE / SEQUENCE OF / CHOICE) of every string
+    kind; the explicit values hold the smallest and the largest permitted character and the boundary characters of every piece
+    (valid), and the codes just outside every piece (one violation each)."""
+    types = []; plan = []           # plan: (type name, kind, alpha, path-maker)
+    def pieces_for(k, a, b, i):
+        """disjoint, non-adjacent pieces with smallest code a and largest code b"""
+        ok = set(piece_codes(k))
+        ps = []
+        lo_piece = (a, a + 1) if i % 2 and a + 1 in ok and a + 3 < b else (a, a)
+        hi_piece = (b - 1, b) if i % 3 == 1 and b - 1 in ok and b - 3 > lo_piece[1] else (b, b)
+        ps.append(lo_piece)
+        mids = [c for c in range(lo_piece[1] + 2, hi_piece[0] - 1) if c in ok]
+        if mids and i % 4 != 3:
+            m = mids[(7 * i) % len(mids)]
+            ps.append((m, m + 1) if i % 2 == 0 and m + 1 in ok and m + 2 < hi_piece[0] else (m, m))
+        ps.append(hi_piece)
+        return ps
+    def alpha_of(ps): return [chr(lo) if lo == hi else (chr(lo), chr(hi)) for lo, hi in ps]
+    per_kind = {}
+    for k in ALPHA_KINDS:
+        ok = kind_codes(k)
+        edges = [e for e in ALPHA_EDGES if e in ok]
+        if k in ("BMPString", "UniversalString"): edges += [128, 143, 144, 159, 160, 239, 240, 255]
+        if k == "IA5String": edges = [0, 1] + edges
+        if k == "NumericString": edges = [32, 48, 57]
+        if quick and k in ("UTF8String", "UniversalString"): edges = [e for e in edges if e % 16 in (0, 15) or e in (17, 127, 255)]
+        lst = []
+        for i, b in enumerate(edges):
+            lower = [c for c in piece_codes(k) if c <= b - 2]
+            if not lower: continue
+            lowedges = [e for e in edges if e <= b - 2]
+            a = lowedges[(5 * i + 3) % len(lowedges)] if lowedges and i % 5 != 4 else lower[(11 * i) % len(lower)]
+            lst.append(pieces_for(k, a, b, i))
+        if k in ("BMPString", "UniversalString"):
+            lst.append([(32, 32), (250, 255)])
+            lst.append([(65, 66), (256, 256)])                      # beyond the table: the generated loop
+            lst.append([(65, 66), (0x2028, 0x2029), (0xfffd, 0xfffd)])
+        if k == "UTF8String":
+            lst.append([(1, 1), (16, 16)])
+        per_kind[k] = lst
+    short = {"IA5String": "Ia", "VisibleString": "Vs", "PrintableString": "Ps", "NumericString": "Ns", "UTF8String": "U8", "BMPString": "Bm", "UniversalString": "Un"}
+    values = []
+    def edge_values(k, ps):
+        """[(case kind, octets)]"""
+        allc = set()
+        for lo, hi in ps: allc.update(range(lo, hi + 1))
+        bnd = []
+        for lo, hi in ps: bnd += [lo] if lo == hi else [lo, hi]
+        out = [("alphabet-edge-valid", mk_chars(k, [ps[-1][1]])), ("alphabet-edge-valid", mk_chars(k, [ps[0][0]])),
+               ("alphabet-edge-valid", mk_chars(k, [ps[0][0], ps[-1][1]])), ("alphabet-edge-valid", mk_chars(k, bnd)),
+               ("alphabet-edge-valid", mk_chars(k, list(reversed(bnd)) + [ps[-1][1]] * 3))]
+        okc = set(kind_codes(k))
+        for lo, hi in ps:
+            for c in (lo - 1, hi + 1, lo - 16, hi + 16, hi + 256, lo + 256):
+                if c >= 0 and c not in allc and (c in okc or (255 < c <= 0xffff and not 0xd800 <= c <= 0xdfff and k in ("UTF8String", "BMPString", "UniversalString"))):
+                    out.append(("single:from-edge", mk_chars(k, [ps[0][0], c, ps[-1][1]])))
+        return out
+    for k in ALPHA_KINDS:
+        members = []
+        for j, ps in enumerate(per_kind[k]):
+            n = f"{short[k]}{j}"
+            t = T(k, size=(C(1, 8) if j % 3 == 2 and k in ALPHA_SIZED else None), alpha=alpha_of(ps))
+            types.append((n, t))
+            for kind, v in edge_values(k, ps): values.append((n, v, kind))
+            members.append((f"m{j}", ps, t))
+        # the same alphabets as inline members of a SEQUENCE (their own tables), element of a SEQUENCE OF, alternative of a CHOICE
+        sn = f"{short[k]}Seq"
+        types.append((sn, T("SEQUENCE", comps=[M(mid, dict(mt), "OPTIONAL") for mid, _, mt in members])))
+        allmax = {mid: mk_chars(k, [ps[0][0], ps[-1][1]]) for mid, ps, _ in members}
+        values.append((sn, allmax, "alphabet-edge-valid"))
+        for mid, ps, _ in members:
+            for kind, v in edge_values(k, ps)[:1] + [x for x in edge_values(k, ps) if x[0].startswith("single")][:2]:
+                values.append((sn, {mid: v}, kind))
+                if kind.startswith("single"): values.append((sn, dict(allmax, **{mid: v}), kind))
+        mult = [(mid, ps, mt) for mid, ps, mt in members if ps[-1][1] % 16 == 0] or members
+        mid, ps, mt = mult[len(mult) // 2]
+        ln = f"{short[k]}Lst"; cn = f"{short[k]}Cho"
+        types.append((ln, T("SEQUENCE OF", elem=dict(mt), size=None)))
+        types.append((cn, T("CHOICE", comps=[M("x", dict(mult[0][2])), M("y", T("REF", name=f"{short[k]}{len(members) - 1}")), M("z", T("BOOLEAN"))])))
+        ev = edge_values(k, ps)
+        values.append((ln, [v for kd, v in ev if kd.endswith("valid")], "alphabet-edge-valid"))
+        for kd, v in [x for x in ev if x[0].startswith("single")][:3]: values.append((ln, [ev[0][1], v, ev[1][1]], kd))
+        for kd, v in edge_values(k, mult[0][1])[:2] + [x for x in edge_values(k, mult[0][1]) if x[0].startswith("single")][:2]: values.append((cn, ("x", v), kd))
+        for kd, v in edge_values(k, members[-1][1])[:2] + [x for x in edge_values(k, members[-1][1]) if x[0].startswith("single")][:2]: values.append((cn, ("y", v), kd))
+    return {"name": "ALB", "tagdefault": "AUTOMATIC", "types": types}, values
+
+def alphabet_boundary_cases(ctx, m, values):
+    env = dict(m["types"])
+    cases = [(n, c_view(env[n], v, env), kind, ((),)) for n, v, kind in values]
+    # a few generator-made valid values and planted violations per type as well (sizes, built-in alphabets)
+    extra = make_cases(ctx, m, 2, 4, 0)
+    return cases + [c for c in extra if c[2] != "valid" or ctx.rng.random() < 0.5]
+
 def gen_modules(ctx, n, ntypes):
     out = []
     for i in range(n):
@@ -827,6 +947,12 @@ def run(ctx):
         is_shp = m is shp
         cases = make_cases(ctx, m, 6 if is_shp else (4 if quick else 10), 40 if is_shp else (14 if quick else 40), 2 if quick else 6)
         run_module(ctx, m, text, cases, stats, 6 if is_shp else (2 if quick else 6))
+    # permitted-alphabet tables: smallest / largest characters on and around the multiples of 16, every string kind, top level and members
+    alb, albvals = alphabet_boundary_module(ctx.rng, quick)
+    nmod = stats["modules"]
+    run_module(ctx, alb, mtext(alb), alphabet_boundary_cases(ctx, alb, albvals), stats, 2)
+    if stats["modules"] == nmod:
+        ctx.broken.append({"kind": "harness", "msg": "the permitted-alphabet boundary module ALB does not build (see the log)"})
     # former F48 region: types whose checker has nothing applicable (valid values, planted violations of the other components)
     sl = {"name": "SLP", "tagdefault": "AUTOMATIC", "types": VACUOUS_TYPES}
     run_module(ctx, sl, mtext(sl), make_cases(ctx, sl, 4, 20, 2), stats, 2)
